@@ -79,6 +79,6 @@ def Body.meaning (b : Body) : List Char := meaningSegs b.segs b.tail
 
 /-- raw string literal `r#…#"content"#…#` with `k` hashes -/
 def renderRaw (k : Nat) (content : List Char) : List Char :=
-  'r' :: List.replicate k '#' ++ '"' :: content ++ '"' :: List.replicate k '#'
+  'r' :: (List.replicate k '#' ++ '"' :: (content ++ '"' :: List.replicate k '#'))
 
 end Konst.Lit.Spec
